@@ -137,7 +137,7 @@ pub fn run_c06(ctx: &mut Ctx) {
         let padded = ctx.rng.random_bool(0.5);
         let prefetch = ctx.rng.random_range(0..=4);
         let limit = ctx.rng.random_range(0..=16);
-        let seed = ctx.rng.random_range(0..1000);
+        let seed = crate::gen::seed(&mut ctx.rng);
         emit(ctx, &items, sort, shuffle, padded, prefetch, limit, seed);
     }
 }
